@@ -6,7 +6,7 @@ set_option linter.unusedSectionVars false
 namespace Ucan.Tie
 open Ucan Ucan.GoM
 
-variable {D C S : Type} [DecidableEq D]
+variable {D C S A : Type} [DecidableEq D]
 
 /-! ### token/delegation, token/invocation: the authorization decision -/
 
@@ -24,7 +24,7 @@ theorem toDlg_sub_ne (undef sub : D) (pol) (g : Gen.DlgTok D S) (hs : sub ≠ un
   · simp [h]; exact fun e => hs e.symm
   · simp [h]
 
-def toInv {X : Type} (x : X) (args : Node) (g : Gen.InvTok D C) : Chain.Inv D C X :=
+def toInv {X : Type} (x : X) (args : Node) (g : Gen.InvTok D C A) : Chain.Inv D C X :=
   { iss := g.issuer, sub := g.subject, cmd := g.command, args := args, prf := g.proof, exp := g.expiration,
     aud := some g.audience, nonce := x, metadata := x, cause := x, iat := x }
 
